@@ -6,7 +6,8 @@ package bbr
 // Call discipline reproduced (read off quic-go internal/ackhandler/sent_packet_handler.go and
 // connection.go of the pinned fork):
 //   - SentPacket: bytesInFlight += size FIRST, then OnPacketSent(t, bytesInFlight, pn, size, true)
-//     (so the controller never sees bytesInFlight == 0 on a send);
+//     (so the controller never sees bytesInFlight == 0 on a send; the sub-microsecond-spacing part
+//     also drives the other convention, bytes in flight before the packet: see c12Spacing);
 //   - ReceivedAck: priorInFlight = bytes in flight before anything is removed; RTT stats updated
 //     from the largest newly acked packet BEFORE the event; lost packets = unacked packets below the
 //     largest acked that are >= 3 packets behind it or older than 9/8*max(latest,smoothed) RTT;
@@ -256,6 +257,11 @@ type c12Sim struct {
 	ackOnly    int64
 	atFloor    int64
 	atCeil     int64
+	spacedSent int64 // packets sent by spaced
+
+	// priorOnSend: OnPacketSent is given the bytes in flight BEFORE the packet (0 on the send that
+	// ends quiescence) instead of quic-go's "including the packet"; see c12Spacing
+	priorOnSend bool
 }
 
 func c12NewSim(path *c12Path, profile Profile, maxPkts int64) *c12Sim {
@@ -357,7 +363,11 @@ func (s *c12Sim) send(size, mtuTo int64) {
 	s.seq++
 	s.sentPkts++
 	s.inflight += size
-	s.b.OnPacketSent(monotime.Time(s.now), congestion.ByteCount(s.inflight), congestion.PacketNumber(pn), congestion.ByteCount(size), true)
+	reported := s.inflight
+	if s.priorOnSend {
+		reported -= size
+	}
+	s.b.OnPacketSent(monotime.Time(s.now), congestion.ByteCount(reported), congestion.PacketNumber(pn), congestion.ByteCount(size), true)
 	s.lastElicit = s.now
 	drop := false
 	if s.drop3 {
@@ -772,6 +782,45 @@ func (s *c12Sim) earlier(g c12Earlier) {
 	}
 }
 
+// spaced: time GRANULARITY of sends and ack events. The application has n packets to send; the
+// connection sends them sendGap NANOSECONDS apart (one send burst on a fast host: quic-go stamps
+// every packet of a burst with its own clock reading), window and pacer permitting (the send loop's
+// discipline; what they do not admit is not sent), and has nothing more until all are
+// acknowledged. The packets reach the receiver over a link that does not spread them (the bottleneck
+// model would: its serialisation delay is >= 1 us per packet on every path), and are acknowledged
+// one by one, ackGap nanoseconds apart (compressed acks), the first one path RTT after the first
+// send. Everything else the bottleneck simulator produces is spaced by whole serialisation delays
+// (>= 1 us) or not at all (a burst within one pump has one timestamp). The per-event oracle judges
+// every event. Added after the independently seeded change C12-13 (BandwidthFromDelta computed
+// from delta.Microseconds(): a send-rate sample over two sends less than 1 us apart divided by 0).
+func (s *c12Sim) spaced(n int, sendGap, ackGap int64) {
+	s.hasData, s.drop3, s.evSent, s.stopEmpty, s.sendCap = false, false, 0, false, -1
+	first := len(s.rx)
+	base := s.now + int64(s.path.RTT)
+	if first > s.rh {
+		base = max(base, s.rx[first-1].ackAt) // acknowledgements stay in order
+	}
+	for i := 0; i < n && s.clause == ""; i++ {
+		if i > 0 {
+			s.now += sendGap
+		}
+		if !s.b.CanSend(congestion.ByteCount(s.inflight)) || !s.b.HasPacingBudget(monotime.Time(s.now)) {
+			break
+		}
+		s.send(s.qSize, 0)
+	}
+	for i := first; i < len(s.rx); i++ {
+		s.rx[i].ackAt = base + int64(i-first)*ackGap
+		s.rx[i].gap = true // acknowledged at once, on its own
+	}
+	s.spacedSent += int64(len(s.rx) - first)
+	if s.fh < len(s.flight) && s.clause == "" {
+		s.untilPN = s.nextPN - 1
+		s.run(s.now + int64(60*time.Second))
+		s.untilPN = -1
+	}
+}
+
 // macro executes one macro-event of the alphabet.
 func (s *c12Sim) macro(ev int) {
 	R := s.path.unit()
@@ -874,6 +923,13 @@ type c12Case struct {
 	ForceWin string `json:"force_window,omitempty"`
 	ForceRec string `json:"force_recovery_window,omitempty"`
 	Raise    int64  `json:"raise,omitempty"`
+	// sub-microsecond-spacing part: after the prefix the application sends Burst packets SendGapNs
+	// apart, acknowledged one by one AckGapNs apart (see spaced), then Seq
+	Burst     int   `json:"burst,omitempty"`
+	SendGapNs int64 `json:"send_gap_ns,omitempty"`
+	AckGapNs  int64 `json:"ack_gap_ns,omitempty"`
+	// every OnPacketSent of the trace reports the bytes in flight before the packet (see c12Spacing)
+	PriorOnSend bool `json:"bytes_in_flight_on_send_exclude_the_packet,omitempty"`
 }
 
 // c12Boundary resolves a boundary label against the sender's current window constants.
@@ -947,6 +1003,7 @@ func c12Run(c *c12Case) (res c12Result) {
 		s.flight, s.rx = c12FlightBuf[:0], c12RxBuf[:0]
 		c12FlightBuf, c12RxBuf = nil, nil
 		res.sim = s
+		s.priorOnSend = c.PriorOnSend
 		if c.RTTs > 0 {
 			R := s.path.unit()
 			for _, e := range c.Prefix {
@@ -996,6 +1053,9 @@ func c12Run(c *c12Case) (res c12Result) {
 				s.b.SetMaxDatagramSize(congestion.ByteCount(n))
 				s.check(fmt.Sprintf("after SetMaxDatagramSize(%d) with window=%s recovery window=%q", n, c.ForceWin, c.ForceRec))
 			}
+		}
+		if c.Burst > 0 && s.clause == "" && s.infra == "" {
+			s.spaced(c.Burst, c.SendGapNs, c.AckGapNs)
 		}
 		for _, e := range c.Seq {
 			if s.clause != "" || s.infra != "" {
